@@ -11,6 +11,7 @@ use super::adapter::TableAdapter;
 use super::data_gen::{DataKnobs, DataTable, Dataset, gen_dataset};
 use super::ir_sexp::{args_to_sexp, data_view, ir_to_sexp};
 use super::query_gen::{GenQuery, QueryKnobs, gen_query};
+use super::recurse_subtype::{self, rs_dataset, rs_query, rs_schema};
 use super::run::{args_error_names, compile, real_args};
 use super::schema_gen::{GenSchema, SchemaKnobs, gen_schema};
 use super::tagged_regex::{N_TEMPLATES, tr_dataset, tr_query, tr_schema};
@@ -30,7 +31,8 @@ pub struct WorldKnobs {
 
 impl WorldKnobs {
     /// quick: 40 schemas × 2 datasets × 10 queries; thorough: 10× as many schemas. `gen_worlds` appends
-    /// `n_tagged_regex_worlds` directed worlds (quick 4, thorough 40) × 2 datasets × 8 queries.
+    /// `n_tagged_regex_worlds` directed worlds (quick 4, thorough 40) × 2 datasets × 8 queries of EACH
+    /// directed family (tagged-regex, recurse-from-strict-subtype).
     pub fn for_tier(tier: Tier) -> WorldKnobs {
         WorldKnobs {
             n_schemas: if tier == Tier::Quick { 40 } else { 400 },
@@ -184,7 +186,7 @@ pub fn gen_world(rng: &mut Rng, knobs: &WorldKnobs, stats: &mut GenStats) -> Wor
     World { schema, schema_sexp, real, datasets, queries }
 }
 
-/// Number of DIRECTED "tagged-regex" worlds appended to a run of `gen_worlds` (derived from the number
+/// Number of DIRECTED worlds PER FAMILY (tagged-regex; recurse-from-strict-subtype) appended to a run of `gen_worlds` (derived from the number
 /// of random schemas so that every tier has a few: quick 40 schemas → 4, thorough 400 → 40).
 pub fn n_tagged_regex_worlds(knobs: &WorldKnobs) -> usize {
     if knobs.n_schemas == 0 { 0 } else { (knobs.n_schemas / 10).clamp(2, 40) }
@@ -214,13 +216,41 @@ pub fn gen_tagged_regex_world(rng: &mut Rng, knobs: &WorldKnobs, stats: &mut Gen
     World { schema, schema_sexp, real, datasets, queries }
 }
 
+/// One world of the directed family `recurse_subtype`: an edge declared on an interface and inherited
+/// by two implementors, `@recurse(depth: 2 | 3)` starting at one implementor (entry point or coercion),
+/// data mixing the implementors along the recursion path. `variant_b`: the edge's target is the
+/// declaring interface itself (no implicit coercion) instead of its super-interface.
+pub fn gen_recurse_subtype_world(rng: &mut Rng, knobs: &WorldKnobs, stats: &mut GenStats, variant_b: bool) -> World {
+    let schema = rs_schema(rng, variant_b);
+    let real = schema.to_real();
+    let datasets = (0..knobs.n_datasets).map(|_| rs_dataset(rng, &schema)).collect();
+    let mut order: Vec<usize> = (0..recurse_subtype::N_TEMPLATES).collect();
+    for i in (1..order.len()).rev() {
+        order.swap(i, rng.below(i + 1));
+    }
+    let mut queries = vec![];
+    for template in order.into_iter().take(knobs.n_queries.clamp(4, recurse_subtype::N_TEMPLATES)) {
+        let gq = rs_query(rng, &schema, template);
+        let wq = compile_query(&schema, &real, gq);
+        count_query(stats, &wq);
+        queries.push(wq);
+    }
+    let schema_sexp = schema.to_sexp();
+    World { schema, schema_sexp, real, datasets, queries }
+}
+
 /// `n_schemas` random worlds followed by the directed worlds (appended, so that the random worlds of a
-/// seed are the same as before the directed family existed); everything from the one `rng`.
+/// seed are the same as before the directed families existed): `n_tagged_regex_worlds` tagged-regex
+/// worlds, then as many recurse-from-strict-subtype worlds (every fourth one of variant B); everything
+/// from the one `rng`.
 pub fn gen_worlds(rng: &mut Rng, knobs: &WorldKnobs) -> (Vec<World>, GenStats) {
     let mut stats = GenStats::default();
     let mut worlds: Vec<World> = (0..knobs.n_schemas).map(|_| gen_world(rng, knobs, &mut stats)).collect();
     for _ in 0..n_tagged_regex_worlds(knobs) {
         worlds.push(gen_tagged_regex_world(rng, knobs, &mut stats));
+    }
+    for i in 0..n_tagged_regex_worlds(knobs) {
+        worlds.push(gen_recurse_subtype_world(rng, knobs, &mut stats, i % 4 == 3));
     }
     (worlds, stats)
 }
